@@ -573,7 +573,63 @@ fn flip_between_words(run: &Run) {
     );
 }
 
+/// "no blow-up, no panic" over the LIFE of a context: one phonetic context (list on) composes tens of thousands of distinct
+/// word parts without ever being re-created - an odometer over a small alphabet, driven by keys and plain backspaces
+/// so that nearly every key event shows the engine a text it has not seen.  Whatever the engine keeps per word part
+/// (and may bound, evict or rebuild at 2^10 ... 2^15 entries) is filled and crossed here.  `stream` 0: letters,
+/// 1: digits and letters with English on, 2: letters then a user-list reload in the middle.
+fn long_lived_stream(stream: usize, limit: usize, st: &mut Stats) -> Result<(), Failure> {
+    let opts = Opts::parse(["s", "se", "sq"][stream % 3]);
+    let alphabet: Vec<char> = ["abdgklmnrst", "a1b2k3m4n5", "eiouhpcjyz"][stream % 3].chars().collect();
+    let case = |n: usize| json!({"opts": opts.letters(), "long_lived_stream": {"stream": stream, "events": n}});
+    let sb = Sandbox::new();
+    let mut ctx = Ctx::new(opts, &sb).map_err(|p| Failure::new(panic_kind(&p), p.to_string(), case(0)))?;
+    let depth = 5usize;
+    let mut digits = vec![0usize; depth];
+    let mut typed = 0usize; // characters of the current word on display
+    let mut events = 0usize;
+    let mut distinct = 0usize;
+    while events < limit {
+        // type the word of the odometer from the first position that changed
+        while typed < depth {
+            let c = alphabet[digits[typed] % alphabet.len()];
+            ctx.ch(c, 0).map_err(|p| Failure::new(panic_kind(&p), format!("after {events} key / backspace events in one context: {p}"), case(events)))?;
+            typed += 1;
+            events += 1;
+            distinct += 1;
+        }
+        // advance: the right-most digit that can still grow; everything right of it is erased
+        let mut pos = depth - 1;
+        loop {
+            digits[pos] += 1;
+            if digits[pos] < alphabet.len() || pos == 0 {
+                break;
+            }
+            digits[pos] = 0;
+            pos -= 1;
+        }
+        while typed > pos {
+            ctx.backspace(false).map_err(|p| Failure::new(panic_kind(&p), format!("after {events} events in one context: {p}"), case(events)))?;
+            typed -= 1;
+            events += 1;
+        }
+        if typed == 0 && stream % 3 == 2 && events % 5 == 0 {
+            // idle for a moment: the user's list appears / changes and the context is told
+            std::fs::write(sb.autocorrect_file(), format!("{{\"e\":\"o{}\"}}", events)).expect("user list");
+            let o = ctx.opts;
+            ctx.update(o, &sb).map_err(|p| Failure::new(panic_kind(&p), p.to_string(), case(events)))?;
+        }
+    }
+    st.count("long-lived-stream-events", events as u64);
+    st.count("long-lived-stream-distinct-texts", distinct as u64);
+    st.label("long-lived-stream");
+    Ok(())
+}
+
 pub fn run(run: &Run) {
+    let streams: Vec<usize> = (0..3).collect();
+    let limit = run.tier.pick(90_000, 400_000);
+    run.exhaustive("one-context-through-tens-of-thousands-of-distinct-word-parts", &streams, |_| (), |&s, st, _| long_lived_stream(s, limit, st));
     flip_between_words(run);
     long_words(run);
     sweep(run);
@@ -602,6 +658,9 @@ pub fn run(run: &Run) {
 }
 
 pub fn replay(_run: &Run, case: &Value) -> Result<(), Failure> {
+    if let Some(l) = case.get("long_lived_stream") {
+        return long_lived_stream(l["stream"].as_u64().unwrap_or(0) as usize, l["events"].as_u64().unwrap_or(0) as usize + 8, &mut Stats::new());
+    }
     let opts = Opts::parse(case["opts"].as_str().unwrap_or_default());
     if case.get("transitions").is_some() {
         return match crate::props::c10::replay(_run, case) {
